@@ -40,7 +40,7 @@ def _golit_bounded(b): return ['golit_%s_%s' % (t, b) for t in ('i32', 'i64', 'u
 # ------------------------------------------------------------------------------------------------------------------ groups
 GROUPS = {
     'lexer-mls': dict(crate='lexer', inject={'crates/lexer/src/lib.rs': _h('lexer_mls.rs')}, extra=[], mem_gb=8,
-                      harnesses={'quick': ['mls_len%02d' % i for i in range(5, -1, -1)], 'thorough': ['mls_len%02d' % i for i in range(10, -1, -1)]},
+                      harnesses={'quick': ['mls_len%02d' % i for i in range(7, -1, -1)], 'thorough': ['mls_len%02d' % i for i in range(10, -1, -1)]},
                       jobs={'quick': 6, 'thorough': 11}, timeout={'quick': 300, 'thorough': 1200}),
     'parser-bp': dict(crate='parser', inject={'crates/parser/src/expr.rs': _h('parser_bp.rs')}, extra=[], mem_gb=8,
                       harnesses={'quick': ['bp_domains', 'bp_binary_pairs', 'bp_prefix_postfix'], 'thorough': ['bp_domains', 'bp_binary_pairs', 'bp_prefix_postfix']},
@@ -222,11 +222,11 @@ def _tiered(group, pred):
 
 # ------------------------------------------------------------------------------------------------------------------ C12 / C04 / C11 : lexer + parser
 MLS_FUNCS = ['lexer::lex_multiline_str', 'logos::Lexer::remainder', 'logos::Lexer::bump', 'logos::Lexer::new']
-MLS_BOUNDS = {'quick': 'source = `\\\\` + every string of exactly L bytes, L = 0..5, over the characters {\\, \\n, space, tab, a, é (2 bytes), → (3 bytes)}; one harness per L, contents symbolic',
-              'thorough': 'source = `\\\\` + every string of exactly L bytes, L = 0..10, over the characters {\\, \\n, space, tab, a, é (2 bytes), → (3 bytes)}; one harness per L, contents symbolic'}
+MLS_BOUNDS = {'quick': 'source = `\\\\` + every string of exactly L bytes, L = 0..7, over the characters {\\, \\n, \\r, space, tab, a, é (2 bytes), → (3 bytes)}; one harness per L, contents symbolic',
+              'thorough': 'source = `\\\\` + every string of exactly L bytes, L = 0..10, over the characters {\\, \\n, \\r, space, tab, a, é (2 bytes), → (3 bytes)}; one harness per L, contents symbolic'}
 MLS_ASSUME = ['the callback runs in the state the logos DFA leaves it in: the regex `\\\\{2}` has matched the first two bytes (harness: Lexer::new + bump(2))',
-              'input is valid UTF-8 (a Rust &str) over the 7-character alphabet; bytes other than \\ \\n space tab are all treated alike by the scanner (read off the code)']
-MLS_OUT = 'remainders longer than the bound; the logos DFA itself; `\\r` (lower.rs uses str::lines(), which also strips `\\r\\n`)'
+              'input is valid UTF-8 (a Rust &str) over the 8-character alphabet; bytes other than \\ \\n space tab are all treated alike by the unchanged scanner (read off the code); \\r is included because a scanner that treats CRLF specially is a plausible change']
+MLS_OUT = 'remainders longer than the bound; the logos DFA itself; how lowering treats a `\\r` left at the end of a line'
 
 def _mls_ob(oid, title):
     return _ob(oid, title, 'lexer-mls', GROUPS['lexer-mls']['harnesses'], MLS_FUNCS, MLS_BOUNDS, assumptions=MLS_ASSUME, outside=MLS_OUT, weight=3)
